@@ -9,7 +9,7 @@ class StdOutOutput(i_lib.Output):
         if self._line_pending:
             print(' ', end='')
 
-        self._line_pending = True
+        self._line_pending = not str(output).endswith('\n')
         print(output, end='')
 
     def newline(self):
